@@ -98,7 +98,8 @@ def _find_lcas(
         c1: First commit
         c2s: List of second commits
         lookup_stamp: Function to get commit timestamp
-        min_stamp: Minimum timestamp to consider
+        min_stamp: Ignored; kept for backwards compatibility. Timestamps are
+          not monotonic along ancestry, so they cannot bound the traversal.
         shallows: Set of shallow commits
 
     Returns:
@@ -197,8 +198,10 @@ def _find_lcas(
                     if shallows is not None and shallows:
                         continue
                     raise
-                if pdt < min_stamp:
-                    continue
+                # Note: commit timestamps only order the traversal. They must
+                # not be used to prune it (as a min_stamp cut-off used to do):
+                # with clock skew an ancestor can be newer than its descendant,
+                # and timestamps can be negative.
                 cstates[pcmt] = pflags | cflags
                 wlst.add((pdt, pcmt))
 
